@@ -69,7 +69,9 @@ func (u *Unit) verifyFunc() {
 		var v Value
 		if _, isI := o.Type().Underlying().(*types.Interface); isI && !isTypeParam(o.Type()) {
 			// interface parameter: bound by a ghost `let` in the contract (see alignCapacity)
-			v = Value{K: KIface, T: o.Type()}
+			// (otherwise it wraps an arbitrary comparable value)
+			inner := Value{K: KInt, T: types.Typ[types.Int], Term: u.ctx.Fresh(ct.Params[i]+".dyn", SInt)}
+			v = Value{K: KIface, T: o.Type(), Inner: &inner}
 		} else {
 			v = u.freshValue(st, o.Type(), ct.Params[i])
 		}
